@@ -6,6 +6,7 @@ CONSTANTS
   MaxPend = 3
   Horizon = 2
   HeadCheck = TRUE
+  PlainBase = 10
   MaxHold = 3
   CritOn = FALSE
   ExportOn = TRUE
